@@ -3,7 +3,7 @@
     statements cover requests whose offset + count wraps around. *)
 From Coq Require Import ZArith Bool String List Lia.
 Require Import ZifyBool.
-Require Import NixV.Base.Prelude NixV.Data.NDIndex NixV.Data.NDArr NixV.Data.NDProofs
+Require Import NixV.Base.Prelude NixV.Data.NDIndex NixV.Data.NDArr NixV.Data.NDSpec NixV.Data.NDProofs
                NixV.Access.SliceSwitches NixV.Access.View NixV.Access.Slice NixV.Access.SliceSpec.
 Import ListNotations.
 Local Open Scope Z_scope.
@@ -595,4 +595,159 @@ Example scalar_template_refuted :
   view_get_value repaired_except_pinned w a20 [] 1 [5] = Ok [VI 7] /\
   view_get_value repaired_except_pinned w a20 [] 1 [6] = Err oob /\
   spec_get_value w a20 [] [] = Ok [VI 2].
+Proof. repeat split; vm_compute; reflexivity. Qed.
+
+(** * The typed template routes through a view *)
+
+Lemma list_Z_eqb_eq : forall a b, list_Z_eqb a b = true -> a = b.
+Proof.
+  induction a as [|x a IH]; destruct b as [|y b]; cbn [list_Z_eqb]; intro H; try discriminate; [reflexivity|].
+  apply andb_true_iff in H. destruct H as [H1 H2]. apply Z.eqb_eq in H1. subst. f_equal. apply IH. exact H2.
+Qed.
+
+Lemma prod_unit_interval : forall l, Forall (fun x => 0 <= x <= 1) l -> 0 <= prod l <= 1.
+Proof.
+  induction l as [|x l IH]; intro H; cbn [prod]; [lia|]. inversion H; subst. specialize (IH H3). nia.
+Qed.
+
+Lemma filter_none_small : forall l, all_u64 l -> filter (fun d => 1 <? d) l = [] -> Forall (fun x => 0 <= x <= 1) l.
+Proof.
+  induction l as [|x l IH]; intros U H; [constructor|]. apply all_u64_cons in U. destruct U as [Hx U].
+  cbn [filter] in H. destruct (1 <? x) eqn:E; [discriminate|]. constructor; [lia | apply IH; assumption].
+Qed.
+
+Lemma prod_le_single : forall l d, all_u64 l -> filter (fun x => 1 <? x) l = [d] -> prod l <= d.
+Proof.
+  induction l as [|x l IH]; intros d U H; [discriminate|]. apply all_u64_cons in U. destruct U as [Hx U].
+  cbn [filter] in H. cbn [prod]. destruct (1 <? x) eqn:E.
+  - inversion H; subst. pose proof (prod_unit_interval l (filter_none_small l U H2)). nia.
+  - specialize (IH d U H).
+    assert (0 <= prod l) by (apply prod_nonneg; unfold all_u64 in U; unfold shape_ok; eapply Forall_impl; [|exact U]; cbn; intros; lia).
+    nia.
+Qed.
+
+(** a value resized to non-empty [dims] holds at least prod dims elements *)
+Lemma resize_holds : forall r dims ext, all_u64 dims -> dims <> [] -> route_resize r dims = Ok ext -> prod dims <= route_buf r ext.
+Proof.
+  intros r dims ext U Hne H. destruct r as [|n|m n| | |k|]; cbn [route_resize route_buf] in *.
+  - destruct dims as [|x dims]; [contradiction|]. cbn [List.length Nat.eqb orb] in H.
+    destruct (prod (x :: dims) =? 1) eqn:E; [|discriminate]. lia.
+  - destruct (list_Z_eqb dims [n]) eqn:E; [|discriminate]. apply list_Z_eqb_eq in E. inversion H; subst. lia.
+  - destruct (list_Z_eqb dims [m; n]) eqn:E; [|discriminate]. apply list_Z_eqb_eq in E. inversion H; subst. lia.
+  - destruct dims as [|x dims]; [contradiction|].
+    destruct (vector_size (x :: dims)) as [n|e|w] eqn:V; cbn [bind] in H; try discriminate. inversion H; subst ext.
+    pose proof (vector_agree (x :: dims)) as A. rewrite V in A. cbn [to_opt] in A. unfold spec_vector_size in A.
+    cbn [prod]. rewrite Z.mul_1_r.
+    destruct (filter (fun d => 1 <? d) (x :: dims)) as [|d [|d2 l]] eqn:F; try discriminate.
+    + inversion A; subst n. cbn [nth].
+      pose proof (filter_none_small _ U F) as S. inversion S; subst.
+      pose proof (prod_unit_interval dims H3). nia.
+    + inversion A; subst n. change (x * prod dims) with (prod (x :: dims)). apply prod_le_single; assumption.
+  - destruct dims as [|n [|y l]]; try discriminate. inversion H; subst. lia.
+  - destruct (Nat.eqb (List.length dims) k); [|discriminate]. inversion H; subst. lia.
+  - inversion H; subst. lia.
+Qed.
+
+Lemma resize_nil_buf : forall r ext, route_resize r [] = Ok ext -> route_buf r ext = 1.
+Proof.
+  intros r ext H. destruct r as [|n|m n| | |k|]; cbn [route_resize route_buf list_Z_eqb List.length Nat.eqb orb] in *; try discriminate.
+  - reflexivity.
+  - destruct k; cbn [Nat.eqb] in H; [|discriminate]. inversion H. reflexivity.
+  - inversion H. reflexivity.
+Qed.
+
+Lemma zlen_tab : forall {A} sh (f : list Z -> A), shape_ok sh -> zlen (tab sh f) = prod sh.
+Proof. intros A sh f H. unfold zlen. rewrite tab_length. apply Z2Nat.id. apply prod_nonneg. exact H. Qed.
+
+(** getData(value, count, offset) through a view, every container kind: the (count, offset) request, an empty count
+    being one element - never more elements than the resized value holds *)
+Theorem view_tget3_spec : forall B a v r cnt off,
+  tget3_empty_count B = false -> view_check_wraps B = false -> view_ok a v ->
+  all_u64 cnt -> all_u64 off ->
+  (cnt = [] \/ List.length cnt = List.length (v_count v)) -> (off = [] \/ List.length off = List.length (v_count v)) ->
+  view_tget3 B v a r cnt off = spec_tget3 v a r cnt off.
+Proof.
+  intros B a v r cnt off HT HB OK Uc Uo Rc Ro. unfold view_tget3, spec_tget3.
+  destruct (route_resize r cnt) as [ext|e|w] eqn:RS; cbn [bind]; try reflexivity.
+  set (c := match cnt with [] => repeat 1 (List.length (v_count v)) | _ :: _ => cnt end).
+  assert (Ec : tget3_count B (List.length (view_extent v)) cnt off = c).
+  { unfold tget3_count, c, scalar_count, view_extent. rewrite HT. destruct cnt; [|reflexivity].
+    destruct off as [|o off']; [reflexivity|]. destruct Ro as [Ro|Ro]; [discriminate | rewrite Ro; reflexivity]. }
+  rewrite Ec.
+  assert (Ucc : all_u64 c) by (unfold c; destruct cnt; [apply all_u64_repeat1 | exact Uc]).
+  assert (Rcc : c = [] \/ List.length c = List.length (v_count v)).
+  { unfold c. destruct cnt; [right; apply repeat_length | destruct Rc as [Rc|Rc]; [discriminate | right; exact Rc]]. }
+  rewrite (view_read_meets_spec B a v c off HB OK Ucc Uo (conj Rcc Ro)).
+  unfold spec_view_read. destruct (inside_window v c off) eqn:IN; [|reflexivity]. cbn [bind].
+  unfold inside_window in IN. rewrite zlen_tab by (eapply fits_shape_ok; exact IN).
+  replace (route_buf r ext <? prod (real_count v c)) with false; [reflexivity|].
+  symmetry. apply Z.ltb_ge.
+  destruct cnt as [|x cnt'].
+  - rewrite (resize_nil_buf r ext RS). unfold c.
+    pose proof (value_count_prod v []) as P. unfold spec_value_count in P. rewrite P. cbn [prod]. lia.
+  - unfold c. cbn [real_count]. apply resize_holds; [exact Uc | discriminate | exact RS].
+Qed.
+
+(** a value resized to the window holds the whole window *)
+Lemma getall_holds : forall r v ext, route_resize r (v_count v) = Ok ext ->
+  prod (real_count v (route_shape r ext)) <= route_buf r ext.
+Proof.
+  intros r v ext RS. destruct r as [|n|m n| | |k|]; cbn [route_shape route_buf route_resize] in *.
+  - cbn [real_count]. destruct (Nat.eqb (List.length (v_count v)) 0) eqn:E0.
+    + apply Nat.eqb_eq in E0. rewrite (length_zero_nil _ E0). cbn. lia.
+    + cbn [orb] in RS. destruct (prod (v_count v) =? 1) eqn:E1; [lia | discriminate].
+  - destruct (list_Z_eqb (v_count v) [n]); [|discriminate]. inversion RS. cbn [real_count]. lia.
+  - destruct (list_Z_eqb (v_count v) [m; n]); [|discriminate]. inversion RS. cbn [real_count]. lia.
+  - destruct (v_count v) as [|x l]; [discriminate|]. destruct (vector_size (x :: l)); cbn [bind] in RS; try discriminate.
+    inversion RS. cbn [real_count]. lia.
+  - destruct (v_count v) as [|n [|y l]]; try discriminate. inversion RS. cbn [real_count]. lia.
+  - destruct (Nat.eqb (List.length (v_count v)) k); [|discriminate]. inversion RS; subst ext.
+    unfold real_count. destruct (v_count v); lia.
+  - inversion RS; subst ext. unfold real_count. destruct (v_count v); lia.
+Qed.
+
+(** getData(value) through a view: the value is resized to the window and receives it *)
+Theorem view_tgetall_spec : forall B a v r,
+  view_check_wraps B = false -> view_ok a v ->
+  (forall ext, route_resize r (v_count v) = Ok ext -> route_shape r ext = [] \/ List.length (route_shape r ext) = List.length (v_count v)) ->
+  view_tgetall B v a r = spec_tgetall v a r.
+Proof.
+  intros B a v r HB OK RK. unfold view_tgetall, spec_tgetall, view_extent.
+  destruct (route_resize r (v_count v)) as [ext|e|w] eqn:RS; cbn [bind]; try reflexivity.
+  pose proof OK as [_ F U _ _]. destruct (fits_u64 _ _ _ U F) as [_ Uw].
+  assert (Us : all_u64 (route_shape r ext)).
+  { destruct r; cbn [route_shape]; try constructor; cbn [route_resize] in RS.
+    - destruct (list_Z_eqb (v_count v) [n]) eqn:E; [|discriminate]. apply list_Z_eqb_eq in E. inversion RS; subst. rewrite <- E. exact Uw.
+    - destruct (list_Z_eqb (v_count v) [m; n]) eqn:E; [|discriminate]. apply list_Z_eqb_eq in E. inversion RS; subst. rewrite <- E. exact Uw.
+    - destruct (v_count v) as [|x l] eqn:Ew; [discriminate|].
+      destruct (vector_size (x :: l)) as [n|e|w] eqn:V; cbn [bind] in RS; try discriminate. inversion RS; subst ext.
+      pose proof (vector_agree (x :: l)) as A. rewrite V in A. cbn [to_opt] in A. unfold spec_vector_size in A.
+      apply all_u64_cons. split; [|constructor].
+      destruct (filter (fun d => 1 <? d) (x :: l)) as [|d [|d2 l2]] eqn:Fl; try discriminate; inversion A; subst n.
+      + cbn [nth]. apply all_u64_cons in Uw. tauto.
+      + assert (In d (x :: l)) by (eapply (proj1 (filter_In _ d (x :: l))); rewrite Fl; left; reflexivity).
+        unfold all_u64 in Uw. rewrite Forall_forall in Uw. apply Uw. exact H.
+    - destruct (v_count v) as [|n [|y l]]; try discriminate. inversion RS; subst. exact Uw.
+    - destruct (Nat.eqb (List.length (v_count v)) k); [|discriminate]. inversion RS; subst. exact Uw.
+    - inversion RS; subst. exact Uw. }
+  rewrite (view_read_meets_spec B a v (route_shape r ext) [] HB OK Us ltac:(constructor) (conj (RK ext eq_refl) (or_introl eq_refl))).
+  unfold spec_view_read. destruct (inside_window v (route_shape r ext) []) eqn:IN; [|reflexivity]. cbn [bind].
+  unfold inside_window in IN. rewrite zlen_tab by (eapply fits_shape_ok; exact IN).
+  replace (route_buf r ext <? prod (real_count v (route_shape r ext))) with false; [reflexivity|].
+  symmetry. apply Z.ltb_ge.
+  apply getall_holds. exact RS.
+Qed.
+
+(** the unrepaired three-argument template: window [2,8) of 20 elements, value of rank 0 (scalar, nix::NDArray), empty count *)
+Example tget3_refuted :
+  let w := mkView [2] [6] in
+  view_tget3 repo_dc7d826 w a20 RScalar [] [] = UB value_overrun_read /\
+  view_tget3 repo_dc7d826 w a20 RNDArray [] [0] = UB value_overrun_read /\
+  view_tget3 repaired_except_pinned w a20 RScalar [] [] = Ok ([], [VI 2]) /\
+  view_tget3 repaired_except_pinned w a20 RNDArray [] [3] = Ok ([], [VI 5]) /\
+  view_tget3 repo_dc7d826 w a20 RNDArray [] [3] = Err oob /\
+  view_tget3 repaired_except_pinned w a20 RVector [3] [1] = Ok ([3], [VI 3; VI 4; VI 5]) /\
+  view_tgetall repaired_except_pinned w a20 RVector = Ok ([6], [VI 2; VI 3; VI 4; VI 5; VI 6; VI 7]) /\
+  view_tgetall repaired_except_pinned w a20 RScalar = Err "nix::InvalidRank"%string /\
+  view_tsetall repaired_except_pinned w a20 RVector [6] (gen_from 0) = Err not_allowed.
 Proof. repeat split; vm_compute; reflexivity. Qed.
